@@ -4,6 +4,7 @@ import (
 	"context"
 	"encoding/json"
 	"fmt"
+	"math"
 	"reflect"
 	"runtime"
 	"strings"
@@ -51,6 +52,9 @@ type Case struct {
 	FailMode  string `json:"fail_mode,omitempty"`  // "error" (default) | "close" (websocket.CloseError)
 	// application middlewares registered with conn.Use after the harness's own observer (0-7); the one at
 	// position MwHold can be made to hold a run (ops mwhold / mwrelease)
+	// reactive.WriteThenReadDelay while this case runs (milliseconds; the variable is global, cases are run in
+	// groups of equal delay)
+	DelayMs     int `json:"delay_ms,omitempty"`
 	Middlewares int `json:"middlewares,omitempty"`
 	MwHold      int `json:"mw_hold,omitempty"`
 }
@@ -76,7 +80,7 @@ type Problem struct {
 	Detail string
 }
 
-func init() { reactive.WriteThenReadDelay = 0 }
+func init() { reactive.WriteThenReadDelay = 0 } // set per group of cases by Main (Case.DelayMs)
 
 func envelope(id, typ string, msg interface{}) []byte {
 	m := map[string]interface{}{"id": id, "type": typ}
@@ -127,6 +131,7 @@ type view struct {
 	closeAllIdx int
 	curMsg      int
 	broken      bool        // a socket write has failed: the client is gone
+	writeFailed bool        // some socket write has failed
 	registered  map[int]int // resource -> generation that registered it
 	cleanups    map[int]int // resource -> number of Cleanup calls
 }
@@ -227,8 +232,10 @@ func analyze(evs []Event) *view {
 			v.registered[e.Res] = e.Gen
 		case "cleanup":
 			v.cleanups[e.Res]++
+		case "sockclose":
+			v.broken = true // the client is gone (or is being disconnected): nothing more to converge to
 		case "writefail":
-			v.broken = true
+			v.writeFailed = true
 			if e.Run >= 0 {
 				if r := v.runs[e.Run]; r != nil {
 					r.Written, r.WriteIdx = true, i
@@ -334,6 +341,27 @@ func (p *player) waitFor(what string, cond func(*view) (bool, string)) bool {
 	return false
 }
 
+// waitBrief waits up to d for cond, silently.
+func (p *player) waitBrief(d time.Duration, cond func(*view) bool) {
+	deadline := time.Now().Add(d)
+	for {
+		evs, ch := p.rec.Snapshot()
+		if cond(analyze(evs)) {
+			return
+		}
+		left := time.Until(deadline)
+		if left <= 0 {
+			return
+		}
+		t := time.NewTimer(left)
+		select {
+		case <-ch:
+		case <-t.C:
+		}
+		t.Stop()
+	}
+}
+
 // waitShort waits up to 3 s without reporting: what is still missing is for the oracle to say.
 func (p *player) waitShort(what string, cond func(*view) (bool, string)) bool {
 	deadline := time.Now().Add(3 * time.Second)
@@ -422,6 +450,12 @@ func (p *player) clientLive(g *genInfo) bool {
 func (p *player) snapshot(at int) {
 	evs, _ := p.rec.Snapshot()
 	v := analyze(evs)
+	if v.writeFailed && !v.broken {
+		// a write has just failed: writeOrClose is about to close the socket (give it a moment)
+		p.waitBrief(50*time.Millisecond, func(v *view) bool { return v.broken })
+		evs, _ = p.rec.Snapshot()
+		v = analyze(evs)
+	}
 	if v.cancelled || v.broken {
 		return
 	}
@@ -449,6 +483,9 @@ func (p *player) snapshot(at int) {
 		if err != nil {
 			continue
 		}
+		if _, err := json.Marshal(want); err != nil {
+			continue // the current result cannot be sent at all (NaN, Inf)
+		}
 		p.res.Snaps = append(p.res.Snaps, Snap{Gen: g.Gen, Updates: g.Updates, Want: roundTrip(diff.StripKey(want)), At: at})
 	}
 }
@@ -472,6 +509,17 @@ func (p *player) applySet(o Op) {
 		}
 	case "items":
 		w.Items = append([]Item{}, o.Items...)
+	case "f":
+		switch o.Str {
+		case "nan":
+			w.F = math.NaN()
+		case "inf":
+			w.F = math.Inf(1)
+		case "-inf":
+			w.F = math.Inf(-1)
+		default:
+			w.F = float64(o.Int)
+		}
 	}
 	w.mu.Unlock()
 	p.rec.add(Event{Kind: "touch", Field: o.Field})
